@@ -4,8 +4,8 @@ and which components ran real code vs. a stub (copied into the evidence)."""
 # property -> [(world module, variant kwargs for generate(), weight)]
 _STACKS = [('w_stack', {'stack': 'thrift'}, 1.0), ('w_stack', {'stack': 'mux'}, 1.0)]
 PLANS = {
-  'C01': _STACKS,
-  'C02': _STACKS,
+  'C01': _STACKS + [('w_stack', {'stack': 'mux', 'focus': 'burst'}, 0.1), ('w_stack', {'stack': 'thrift', 'focus': 'burst'}, 0.1)],
+  'C02': _STACKS + [('w_stack', {'stack': 'mux', 'focus': 'burst'}, 0.15), ('w_stack', {'stack': 'thrift', 'focus': 'burst'}, 0.1)],
   'C12': _STACKS,
   'C14': [('w_stack', {'stack': 'thrift'}, 2.0), ('w_stack', {'stack': 'mux'}, 1.0)],
   'C18': _STACKS + [('w_varz', {}, 1.0)],
